@@ -18,6 +18,7 @@ import (
 	"net/url"
 	"reflect"
 	"strings"
+	"time"
 
 	"github.com/charmbracelet/log"
 	"github.com/flamego/flamego"
@@ -51,6 +52,7 @@ type cVar struct {
 	Meth  string `json:"meth"` // request method (GET / HEAD / POST): a HEAD response forwards no body but is "written" all the same
 	RH    bool   `json:"rh"`   // a custom ReturnHandler is mapped in the injector: it replaces the default table
 	Der   bool   `json:"der"`  // "C" installs a derived request context first and cancels that one
+	DL    bool   `json:"dl"`   // ... and that derived context ends by an expired deadline (the timeout-middleware case) rather than by cancel()
 }
 
 type chainCase struct {
@@ -159,8 +161,14 @@ func (x *chainExec) body(h int, c flamego.Context) {
 			if x.v.Der {
 				// the usual timeout-middleware pattern: replace the request by one with a derived context, then cancel it
 				ctx, cancel := gocontext.WithCancel(c.Request().Context())
+				if x.v.DL {
+					ctx, cancel = gocontext.WithDeadline(c.Request().Context(), time.Unix(1, 0))
+					defer cancel()
+				}
 				c.Request().Request = c.Request().Request.WithContext(ctx)
-				cancel()
+				if !x.v.DL {
+					cancel()
+				}
 			} else {
 				x.cancel()
 			}
@@ -218,9 +226,29 @@ type myErr struct{ s string }
 
 func (e *myErr) Error() string { return e.s }
 
+// non-nil errors whose dynamic value is the zero value of its type, or a nil pointer
+type zeroStructErr struct{}
+
+func (zeroStructErr) Error() string { return "<zero-struct>" }
+
+type zeroIntErr int
+
+func (zeroIntErr) Error() string { return "<zero-int>" }
+
+type nilSafeErr struct{ _ int }
+
+func (*nilSafeErr) Error() string { return "<typed-nil>" }
+
 func mkErr(s string, alt bool) error {
-	if s == "" {
+	switch s {
+	case "":
 		return nil
+	case "<zero-struct>":
+		return zeroStructErr{}
+	case "<zero-int>":
+		return zeroIntErr(0)
+	case "<typed-nil>":
+		return (*nilSafeErr)(nil)
 	}
 	if alt {
 		return &myErr{s}
@@ -367,6 +395,7 @@ func chainVarFor(c *chainCase, idx int) cVar {
 	v := cVar{Env: []string{"development", "production", "test"}[rng.Intn(3)],
 		PK: []string{"string", "error", "runtime", "struct", "abort"}[rng.Intn(5)], Fast: rng.Intn(3), Reqs: 1 + rng.Intn(2)}
 	v.Der = rng.Intn(2) == 0
+	v.DL = v.Der && rng.Intn(2) == 0
 	v.RH = rng.Intn(5) == 0
 	v.Meth = []string{"GET", "GET", "HEAD", "POST"}[rng.Intn(4)]
 	v.HS = rng.Intn(3) == 0
@@ -525,6 +554,8 @@ var chainRetPool = []cRet{
 	{Shape: "int_bytes", Code: 204}, {Shape: "int_error", Code: 418, Err: "teapot"}, {Shape: "int_error", Code: 200},
 	{Shape: "string_error", S: "s"}, {Shape: "string_error", S: "s", Err: "e"}, {Shape: "string_error"},
 	{Shape: "bytes_error", S: "b"}, {Shape: "bytes_error", Err: "e2"},
+	{Shape: "error", Err: "<zero-struct>"}, {Shape: "int_error", Code: 503, Err: "<zero-int>"}, {Shape: "string_error", S: "s", Err: "<typed-nil>"},
+	{Shape: "bytes_error", Err: "<zero-struct>"}, {Shape: "error", Err: "<typed-nil>"}, {Shape: "string_error", Err: "<zero-int>"},
 }
 
 func chainGen(seed int64, n int, args []string, out *json.Encoder) {
